@@ -242,9 +242,9 @@ def build_graph(case, idmap=None, shift=None, negq=(), info_scale=1.0, split=Non
         g = copy.deepcopy(g)
     elif mode == 4:
         g = pickle.loads(pickle.dumps(g))
-    elif mode in (2, 5) and _file_expressible(es):
-        g = _through_file(g)
-    PROVENANCE[0] = {1: 'deepcopy', 4: 'pickle'}.get(mode, 'file' if mode in (2, 5) and _file_expressible(es) else 'direct')
+    elif mode in (0, 2, 5) and _file_expressible(es):
+        g = _through_file(g, external=(mode != 5))
+    PROVENANCE[0] = {1: 'deepcopy', 4: 'pickle'}.get(mode, ('file (library writer)' if mode == 5 else 'file (written by the harness)') if mode in (0, 2, 5) and _file_expressible(es) else 'direct')
     PROV_COUNTS[PROVENANCE[0]] = PROV_COUNTS.get(PROVENANCE[0], 0) + 1
     return g
 
@@ -265,7 +265,32 @@ def _file_expressible(es):
     return True
 
 
-def _through_file(g):
+def write_external(g, path):
+    """A .g2o file for g written by the harness itself, following the token layout of G2O.tla (not by the library's writer): what another
+    program would hand over."""
+    def nums(a):
+        return ' '.join(repr(float(x)) for x in np.asarray(a, dtype=float).reshape(-1))
+
+    def upper(m):
+        m = np.asarray(m, dtype=float)
+        return ' '.join(repr(float(m[i, j])) for i in range(m.shape[0]) for j in range(i, m.shape[0]))
+    vt = {'SE2': 'VERTEX_SE2', 'SE3': 'VERTEX_SE3:QUAT', 'R2': 'VERTEX_XY', 'R3': 'VERTEX_TRACKXYZ'}
+    with open(path, 'w') as f:
+        for key, prm in (g._g2o_params or {}).items():
+            f.write('%s %d %s\n' % (key[0], key[1], nums(prm.value)))                 # PARAMS_SE3OFFSET id x y z qx qy qz qw
+        for v in g._vertices:
+            f.write('%s %d %s\n' % (vt[B.KIND_OF[type(v.pose)]], v.id, nums(v.pose)))
+        for e in g._edges:
+            a, b = e.vertex_ids
+            if type(e) is EdgeOdometry:
+                f.write('%s %d %d %s %s\n' % ('EDGE_SE2' if len(e.estimate) == 3 else 'EDGE_SE3:QUAT', a, b, nums(e.estimate), upper(e.information)))
+            elif isinstance(e.offset, B.CLS_OF['SE2']):
+                f.write('EDGE_SE2_XY %d %d %s %s\n' % (a, b, nums(e.estimate), upper(e.information)))
+            else:
+                f.write('EDGE_SE3_TRACKXYZ %d %d %d %s %s\n' % (a, b, e.offset_id, nums(e.estimate), upper(e.information)))
+
+
+def _through_file(g, external=False):
     from graphslam.g2o_parameters import G2OParameterSE3Offset
     reg = {}
     for n, e in enumerate(g._edges):
@@ -276,7 +301,10 @@ def _through_file(g):
     fd, path = tempfile.mkstemp(suffix='.g2o')
     os.close(fd)
     try:
-        g.to_g2o(path)
+        if external:
+            write_external(g, path)
+        else:
+            g.to_g2o(path)
         g2 = Graph.from_g2o(path)
     finally:
         os.unlink(path)
